@@ -53,6 +53,10 @@ func cfgListener(l map[string]any) (int, any) {
 		c.Hosts = []string{"a.example:8080"}
 	case "two":
 		c.Hosts = []string{"a.example", "b.example:9090"}
+	case "portfirst":
+		c.Hosts = []string{"a.example:8443", "b.example"}
+	case "three":
+		c.Hosts = []string{"a.example", "b.example:9090", "c.example"}
 	case "badport":
 		c.Hosts = []string{"a.example:xyz"}
 	case "v6":
